@@ -16,12 +16,16 @@ import (
 )
 
 type vProber struct {
-	ok    map[string]bool
-	asked []string
+	ok     map[string]bool
+	asked  []string
+	seenRV map[string]string // resourceVersion of the object each probe was shown
 }
 
 func (p *vProber) Probe(obj client.Object) (bool, []string) {
 	p.asked = append(p.asked, obj.GetName())
+	if p.seenRV != nil {
+		p.seenRV[obj.GetName()] = obj.GetResourceVersion()
+	}
 	if p.ok[obj.GetName()] {
 		return true, nil
 	}
@@ -55,9 +59,22 @@ func VerifC03PhaseObjects() {
 	w := &vWriter{}
 	cache := &vCache{vReader{Objs: map[client.ObjectKey]*unstructured.Unstructured{}}}
 	uncached := &vReader{Objs: map[client.ObjectKey]*unstructured.Unstructured{}}
-	prober := &vProber{ok: map[string]bool{}}
+	prober := &vProber{ok: map[string]bool{}, seenRV: map[string]string{}}
 	pf := &vPreflightPerObject{bad: map[string]bool{}, w: w}
 	names := []string{"o0", "o1", "o2", "o3"}
+	// the API server answers a write with the object as it is afterwards (new resourceVersion, possibly a new
+	// generation and a status that no longer matches it): probes must be shown that state, not the snapshot read before
+	w.Respond = func(obj client.Object, wr *vWrite) {
+		if wr.DryRun {
+			return
+		}
+		obj.SetResourceVersion("after-write")
+		for _, store := range []map[client.ObjectKey]*unstructured.Unstructured{cache.Objs, uncached.Objs} {
+			if e, ok := store[wr.Key]; ok {
+				e.SetResourceVersion("after-write")
+			}
+		}
+	}
 	present := make([]bool, n)
 	anyBad := false
 	var phase corev1alpha1.ObjectSetTemplatePhase
@@ -127,6 +144,9 @@ func VerifC03PhaseObjects() {
 		verifrt.Reach("clean")
 	}
 	if !paused {
+		for k := 0; k < n; k++ {
+			verifrt.Assert(prober.seenRV[names[k]] == "after-write", "C03/probes-see-the-object-as-written-in-this-pass")
+		}
 		// every object gets exactly one apply patch, in order
 		verifrt.Assert(len(real) == n, "C10/one-apply-per-object")
 		for k := 0; k < len(real) && k < n; k++ {
